@@ -44,6 +44,19 @@ theorem c_input_noninterference_wf (c1 c2 : Ctx) (t1 ht1 t2 ht2 : Int) (h : Rel 
   rw [toM_toC, toM_toC] at this
   exact this
 
+/-- Props/C09.lean `stream_noninterference` for the generated function, called chunk by chunk (`cstep`: the caller appends the
+return value to the ghost log): for ANY stream of chunks, two states with related views make the same observations and stay related -/
+theorem c_stream_noninterference (cc1 cc2 : CC) (h1 : Inv cc1) (h2 : Inv cc2) (h : Rel (toM cc1) (toM cc2)) (chunks : List Bytes)
+    (hl : ∀ d ∈ chunks, d.length ≤ 2147483647) :
+    newObs (toM cc1) (toM (chunks.foldl cstep cc1)) = newObs (toM cc2) (toM (chunks.foldl cstep cc2)) ∧
+    Rel (toM (chunks.foldl cstep cc1)) (toM (chunks.foldl cstep cc2)) ∧
+    (chunks.foldl cstep cc1).ub = false ∧ (chunks.foldl cstep cc2).ub = false := by
+  have e1 := csteps_refine chunks cc1 h1 hl
+  have e2 := csteps_refine chunks cc2 h2 hl
+  have hn := Props.C09.stream_noninterference (toM cc1) (toM cc2) h chunks
+  rw [← e1.1, ← e2.1] at hn
+  exact ⟨hn.1, hn.2, e1.2.ub, e2.2.ub⟩
+
 -- two contexts with different histories (the second has executed a message and failed another, and holds stale bytes
 -- behind the pending "A") but the same pending input: the generated SCPI_Input makes the same observations on "\nA\n"
 example :
